@@ -351,12 +351,27 @@ func c11Body(tape *simrt.Tape, o simwork.Opts, res *simwork.Result) {
 	// invariant: an outcome, once recorded, is never replaced by a different one
 	seen := map[string]testOutcome{}
 	cancelStep, exitStep := -1, -1
+	stopSeen := false
+	var missingAtStop []string
 	sim.Invariant = func() string {
 		if cancelStep < 0 && server.ctx != nil && server.ctx.Err() != nil {
 			cancelStep = sim.Steps()
 		}
 		if exitStep < 0 && server.exited {
 			exitStep = sim.Steps()
+		}
+		if !stopSeen && server.ctx != nil && server.ctx.Err() != nil {
+			// the first step at which the server is seen asked to stop
+			stopSeen = true
+			if !server.exited && !server.died {
+				// the runner stops a server that is still serving: by then the
+				// batch must be over
+				for _, tc := range testCases {
+					if _, ok := results.outcomes[tc.Request.TestName]; !ok {
+						missingAtStop = append(missingAtStop, tc.Request.TestName)
+					}
+				}
+			}
 		}
 		for name, oc := range results.outcomes {
 			prev, ok := seen[name]
@@ -599,6 +614,13 @@ func c11Body(tape *simrt.Tape, o simwork.Opts, res *simwork.Result) {
 		}
 	}
 
+	// ---- the server is asked to stop afterwards: when the runner stops a server
+	// that is still serving, every case of the batch has its outcome (requests
+	// handed to the client are still being answered by that server until then)
+	if len(missingAtStop) > 0 {
+		viol("c11/server-stopped-before-outcomes", "the runner asked the running server to stop while %d case(s) of the batch had no outcome yet: %v (server fault=%s client fault=%s)", len(missingAtStop), missingAtStop, cs.ServerFault, cs.ClientFault)
+	}
+
 	// ---- the server is asked to stop
 	if startedAtReturn && !exitedAtReturn && !abortedAtReturn {
 		viol("c11/server-not-stopped", "runTestCasesForServer returned while the server was running and its context was not cancelled")
@@ -674,5 +696,61 @@ func c11Body(tape *simrt.Tape, o simwork.Opts, res *simwork.Result) {
 	if len(results.outcomes) < cs.N && returned {
 		res.Probes["outcomes-incomplete-at-return"]++
 	}
+	c11Report(cs, results, testCases, viol, res)
 	res.Cover = append(res.Cover, fmt.Sprintf("server=%s client=%s ref=%v/%v tls=%v", cs.ServerFault, cs.ClientFault, cs.RefServer, cs.RefClient, cs.UseTLS))
+}
+
+// c11Report produces the report, which merges the recorded feedback into the
+// outcomes: feedback adds to a case's outcome, it does not turn a setup error
+// into an ordinary failure, a failure into a pass or touch other cases.
+func c11Report(cs *c11Case, results *testResults, testCases []*conformancev1.TestCase, viol func(string, string, ...any), res *simwork.Result) {
+	before := map[string]testOutcome{}
+	for k, v := range results.outcomes {
+		before[k] = v
+	}
+	side := map[string]string{}
+	for k, v := range results.serverSideband {
+		side[k] = v
+	}
+	rp := &recPrinter{}
+	ok := results.report(rp)
+	wantOK := len(before) == cs.N && len(side) == 0
+	for _, oc := range before {
+		if oc.actualFailure != nil {
+			wantOK = false
+		}
+	}
+	if ok != wantOK {
+		viol("c11/report", "report() = %v with %d outcomes for %d cases, %d feedback entries, failing outcomes present=%v", ok, len(before), cs.N, len(side), !wantOK && len(side) == 0 && len(before) == cs.N)
+	}
+	for _, tc := range testCases {
+		name := tc.Request.TestName
+		b, had := before[name]
+		a, has := results.outcomes[name]
+		msg, fb := side[name]
+		switch {
+		case had && !has:
+			viol("c11/report", "the outcome of %q disappeared while the report was produced", name)
+		case !had && has && !fb:
+			viol("c11/report", "an outcome for %q appeared while the report was produced although no feedback names it", name)
+		case has && fb:
+			res.Probes["feedback-merged"]++
+			if a.actualFailure == nil || !strings.Contains(a.actualFailure.Error(), msg) {
+				viol("c11/feedback-not-merged", "feedback %q for %q is not part of its outcome after the report: %v", msg, name, a.actualFailure)
+			}
+			if had && b.setupError != a.setupError {
+				viol("c11/feedback-changes-setup-error", "merging feedback into the outcome of %q changed setupError from %v to %v (outcome before: %v)", name, b.setupError, a.setupError, b.actualFailure)
+			}
+			if had && b.setupError {
+				res.Probes["feedback-merged-into-setup-error"]++
+			}
+			if had && b.actualFailure != nil && !strings.Contains(a.actualFailure.Error(), b.actualFailure.Error()) {
+				viol("c11/feedback-not-merged", "the failure of %q (%v) was lost when feedback was merged: %v", name, b.actualFailure, a.actualFailure)
+			}
+		case has && had:
+			if b.setupError != a.setupError || (b.actualFailure == nil) != (a.actualFailure == nil) {
+				viol("c11/report", "the outcome of %q changed while the report was produced without feedback for it", name)
+			}
+		}
+	}
 }
